@@ -89,6 +89,36 @@ def run(rep: Report, tier: str) -> None:
 		wrote += 1
 		got = [unparse(e).split('source_map', 1)[-1] for e in v.elts]
 		r.check(got == ["['begin'][0]", "['begin'][1]", "['end'][0]", "['end'][1]"] and all('source_map' in unparse(e) for e in v.elts), f'writer:{kind}:source_map-order', (ENTRY, d.lineno), f'{kind}: __dumps writes the span as {got}; the reader restores (line, column, end_line, end_column) from (begin[0], begin[1], end[0], end[1]) — a multi-line {kind} would come back with a different span', unparse(v))
+	# every record describes ONE entry: the entry whose name is written is the entry whose span (and token text) is written. A span variable that is
+	# re-bound between its computation and the record (a loop over the children reusing the name) puts a child's span on the parent
+	from vlib.match import may_reach
+
+	def span_bases(fn, e: ast.AST, attr: str, depth: int = 4) -> set[str]:
+		out: set[str] = set()
+		for n in ast.walk(e):
+			if isinstance(n, ast.Attribute) and n.attr == attr:
+				out.add(unparse(n.value))
+			elif isinstance(n, ast.Name) and isinstance(n.ctx, ast.Load) and depth > 0:
+				for d_ in may_reach(fn, n) or []:
+					v_ = getattr(d_, 'value', None)
+					if v_ is not None and not isinstance(d_, (ast.For, ast.AsyncFor)):
+						out |= span_bases(fn, v_, attr, depth - 1)
+		return out
+	recs = [d for d in ast.walk(dumps.node) if isinstance(d, ast.Dict) and {'name', 'source_map'} <= set(dict_keys(d))]
+	if not recs:
+		r.skip('writer:record-describes-one-entry', dumps.where, '__dumps no longer builds its records as dict literals with name and source_map')
+	for d in recs:
+		fields = {const_str(k_): v_ for k_, v_ in zip(d.keys, d.values) if k_ is not None}
+		own = span_bases(dumps.node, fields['name'], 'name')
+		spans = span_bases(dumps.node, fields['source_map'], 'source_map')
+		texts = span_bases(dumps.node, fields['value'], 'value') if 'value' in fields else own
+		kind = 'tree' if 'children' in fields else 'token'
+		key = f'writer:{kind}:record-describes-one-entry@{unparse(fields["name"])}'
+		if len(own) != 1 or not spans:
+			r.skip(key, (ENTRY, d.lineno), f'entry of the record not recognised (name from {sorted(own)}, span from {sorted(spans)})')
+			continue
+		r.check(spans == own and texts == own, key, (ENTRY, d.lineno), f'the {kind} record written for `{sorted(own)[0]}` can carry the span of {sorted(spans)} / the text of {sorted(texts)}: the span variable is re-bound on a path between its computation and this record, so after a cache restore the node covers another entry\'s source range (source quotations, error positions and reprs differ from a fresh parse)', unparse(d)[:160])
+
 	# the restored children are a re-iterable list (the view reads them more than once; a one-shot iterator is empty on the second reading)
 	from vlib.match import FI as _FI
 	lx = _FI(loads)
